@@ -224,6 +224,21 @@ CHECKS["C03"] = (
     "against closed forms.",
     "sr/fn <= 2000 (property domain); parallel='no' (C09 decides the parallel path); known finding F26 "
     "(linear roll-off with up-sampling factor >= 3) excluded by signature and counted.", "3/C03")
+CHECKS["C10"] = (
+    "exhaustive small-alphabet signals + Hypothesis signal grammar (plateaus, sub-tolerance drifts, monotone "
+    "runs), cycle tables and bin specs, fdepsd option combinations; oracles: validity predicate and exact "
+    "plateau reference for reversal selection, differential default vs accelerated findap (the numba branch "
+    "extracted with ast and run un-jitted), brute-force bin placement, independent oscillator response + ASTM "
+    "rainflow + Rayleigh damage reference for fdepsd, scaling metamorphics",
+    "Generated-input search: both findap definitions must start with the first sample, alternate strictly, "
+    "reach the global extremes within the stated tolerance and agree with each other (and with an exact "
+    "reference on signals without sub-tolerance steps); binify must conserve counts and place every cycle in "
+    "its documented half-open bin; fdepsd outputs must satisfy the stated invariants (monotone cumulative "
+    "counts, count[:,0] = total cycles from an independent response + rainflow, Amax <= SRS, G2 >= G1, "
+    "di_sig = sum amp^b count, var_test^(b/2) di_test = di_sig, quadratic scaling).",
+    "numba is absent: the accelerated definition is executed un-jitted from source; known finding F7 "
+    "(default findap on signals with non-zero sub-tolerance steps) excluded by signature and counted.",
+    "3/C10")
 
 NOT_APPLICABLE = {
 }
